@@ -1,3 +1,151 @@
 package main
 
-type ssaWorld struct{}
+// SSA program and call graphs (lazily built).
+
+import (
+	"go/types"
+	"sort"
+
+	"golang.org/x/tools/go/callgraph"
+	"golang.org/x/tools/go/callgraph/cha"
+	"golang.org/x/tools/go/callgraph/vta"
+	"golang.org/x/tools/go/ssa"
+	"golang.org/x/tools/go/ssa/ssautil"
+)
+
+type ssaWorld struct {
+	Prog   *ssa.Program
+	Pkgs   []*ssa.Package
+	All    map[*ssa.Function]bool
+	vta    *callgraph.Graph
+	cha    *callgraph.Graph
+	byObj  map[*types.Func]*ssa.Function
+	useCHA bool
+}
+
+func (w *World) SSA() *ssaWorld {
+	if w.ssaw != nil {
+		return w.ssaw
+	}
+	prog, pkgs := ssautil.AllPackages(w.All, ssa.InstantiateGenerics)
+	prog.Build()
+	sw := &ssaWorld{Prog: prog, Pkgs: pkgs, byObj: map[*types.Func]*ssa.Function{}}
+	sw.All = ssautil.AllFunctions(prog)
+	for fn := range sw.All {
+		if obj, ok := fn.Object().(*types.Func); ok && fn.Synthetic == "" {
+			sw.byObj[obj] = fn
+		}
+	}
+	w.ssaw = sw
+	return sw
+}
+
+func (sw *ssaWorld) CHA() *callgraph.Graph {
+	if sw.cha == nil {
+		sw.cha = cha.CallGraph(sw.Prog)
+	}
+	return sw.cha
+}
+
+func (sw *ssaWorld) VTA() *callgraph.Graph {
+	if sw.vta == nil {
+		sw.vta = vta.CallGraph(sw.All, sw.CHA())
+	}
+	return sw.vta
+}
+
+// Graph returns the call graph in use (VTA, or CHA in the thorough cross-check).
+func (sw *ssaWorld) Graph() *callgraph.Graph {
+	if sw.useCHA {
+		return sw.CHA()
+	}
+	return sw.VTA()
+}
+
+func (w *World) SSAFunc(fi *FuncInfo) *ssa.Function {
+	sw := w.SSA()
+	if f, ok := sw.byObj[fi.Obj]; ok {
+		return f
+	}
+	return sw.Prog.FuncValue(fi.Obj)
+}
+
+// inModule reports whether fn belongs to the analysed module (including
+// synthetic wrappers of promoted methods, which have no package).
+func (w *World) inModule(fn *ssa.Function) bool {
+	if fn == nil {
+		return false
+	}
+	if fn.Pkg != nil {
+		return w.isModPkg(fn.Pkg.Pkg)
+	}
+	if o := fn.Object(); o != nil && o.Pkg() != nil {
+		return w.isModPkg(o.Pkg())
+	}
+	if fn.Origin() != nil {
+		return w.inModule(fn.Origin())
+	}
+	if fn.Parent() != nil {
+		return w.inModule(fn.Parent())
+	}
+	return false
+}
+
+func (w *World) isModPkg(p *types.Package) bool {
+	if p == nil {
+		return false
+	}
+	for _, m := range w.Mod {
+		if m.Types == p || m.PkgPath == p.Path() {
+			return true
+		}
+	}
+	return false
+}
+
+// callees returns the possible callees of a call instruction, sorted by name.
+func (sw *ssaWorld) callees(site ssa.CallInstruction) []*ssa.Function {
+	if f := site.Common().StaticCallee(); f != nil {
+		return []*ssa.Function{f}
+	}
+	g := sw.Graph()
+	n := g.Nodes[site.Parent()]
+	if n == nil {
+		return nil
+	}
+	seen := map[*ssa.Function]bool{}
+	var out []*ssa.Function
+	for _, e := range n.Out {
+		if e.Site == site && e.Callee != nil && e.Callee.Func != nil && !seen[e.Callee.Func] {
+			seen[e.Callee.Func] = true
+			out = append(out, e.Callee.Func)
+		}
+	}
+	sort.Slice(out, func(i, j int) bool { return out[i].String() < out[j].String() })
+	return out
+}
+
+// Reachable returns the functions reachable from roots in the call graph.
+func (sw *ssaWorld) Reachable(roots ...*ssa.Function) map[*ssa.Function]bool {
+	g := sw.Graph()
+	seen := map[*ssa.Function]bool{}
+	var visit func(f *ssa.Function)
+	visit = func(f *ssa.Function) {
+		if f == nil || seen[f] {
+			return
+		}
+		seen[f] = true
+		if n := g.Nodes[f]; n != nil {
+			for _, e := range n.Out {
+				visit(e.Callee.Func)
+			}
+		}
+		for _, af := range f.AnonFuncs {
+			visit(af)
+		}
+	}
+	for _, r := range roots {
+		visit(r)
+	}
+	return seen
+}
